@@ -3,6 +3,12 @@ pid=sys.argv[1]; n=sys.argv[2] if len(sys.argv)>2 else "a"
 for l in open('/verif/properties.jsonl'):
     p=json.loads(l)
     if p['id']==pid: break
+import glob,os
+prior=[]
+for d in sorted(glob.glob('/verif/seeded/%s*'%pid)):
+    try: prior.append("- "+json.load(open(d+'/meta.json'))['summary'][:400])
+    except Exception: pass
+priortxt=("\n\nEarlier testers already tried the following changes for this property; choose a DIFFERENT site and a different kind of mistake (ideally a different file or function):\n"+"\n".join(prior)) if (n>="e" and prior) else ""
 wt="/tmp/seed_%s%s"%(pid,n)
 out="/tmp/seed_out/%s%s"%(pid,n)
 print(f"""You are testing how robust a software project's safeguards are. The project is the Ferret compiler (a statically typed language compiler written in Go with a C runtime). You work ONLY in your own scratch git worktree of it at {wt} (create it with: git -C /repo worktree add --detach {wt}). Do not read or write anything under /verif, do not modify /repo itself, and do not look at other directories under /tmp.
@@ -15,7 +21,7 @@ Here is a semantic property that the project is supposed to satisfy:
   Code it is anchored in: {', '.join(p['anchors']['files'])}
   Mechanisms: {'; '.join(m['name']+' ('+m['where']+')' for m in p['anchors']['mechanism'])}
 
-YOUR TASK: write ONE realistic change to the Ferret source code (in your worktree) that BREAKS this property while (1) the project still compiles (`cd {wt} && GOFLAGS=-mod=mod GOPROXY=off go build ./...`; never set GOSUMDB=off or GOTOOLCHAIN=local) and (2) the existing test suite still passes (`cd {wt} && GOFLAGS=-mod=mod GOPROXY=off go test -vet=off -count=1 ./...`). The change should look like a plausible mistake or well-meant refactoring a developer could commit (an off-by-one, a dropped case, a wrong signedness, a missing edge, a reordered check, two cooperating sites that each look fine alone), and it must need something SPECIFIC to manifest — a particular input value, an unusual but legal program shape, a multi-step sequence of operations, a particular interleaving — not something that ordinary use (hello-world, the obvious happy path) would expose at once. Keep it small (a few lines). Variant hint for diversity: you are seeder "{n}"; if "a", prefer the core computational mechanism; if "b", prefer a boundary/rare-case or a secondary code path (a different site than the most obvious one); if "c", prefer a site that only matters for aggregate values (structs, fixed arrays, methods, by-value passing and returning), for loops over ranges with steps, or for a runtime-library helper; if "d", prefer an interaction between two features that are each fine alone.
+YOUR TASK: write ONE realistic change to the Ferret source code (in your worktree) that BREAKS this property while (1) the project still compiles (`cd {wt} && GOFLAGS=-mod=mod GOPROXY=off go build ./...`; never set GOSUMDB=off or GOTOOLCHAIN=local) and (2) the existing test suite still passes (`cd {wt} && GOFLAGS=-mod=mod GOPROXY=off go test -vet=off -count=1 ./...`). The change should look like a plausible mistake or well-meant refactoring a developer could commit (an off-by-one, a dropped case, a wrong signedness, a missing edge, a reordered check, two cooperating sites that each look fine alone), and it must need something SPECIFIC to manifest — a particular input value, an unusual but legal program shape, a multi-step sequence of operations, a particular interleaving — not something that ordinary use (hello-world, the obvious happy path) would expose at once. Keep it small (a few lines). Variant hint for diversity: you are seeder "{n}"; if "a", prefer the core computational mechanism; if "b", prefer a boundary/rare-case or a secondary code path (a different site than the most obvious one); if "c", prefer a site that only matters for aggregate values (structs, fixed arrays, methods, by-value passing and returning), for loops over ranges with steps, or for a runtime-library helper; if "d", prefer an interaction between two features that are each fine alone; if "e" or later, prefer a rarely exercised code path, language feature or data shape that the earlier testers did not touch, where the mistake shows only after a multi-step sequence or on an unusual combination.{priortxt}
 
 Also write a DEMONSTRATION that fails with your change and passes without it: a small Ferret program (or, for runtime-library properties, a small C or Go program / test) plus a shell script `demo.sh` taking the path of a source tree as $1 that builds what it needs from that tree and exits 0 if the property holds on the demonstration input and 1 if it is violated. How to build and run: `cd <tree> && GOFLAGS=-mod=mod GOPROXY=off go run ./tools` builds the runtime library into <tree>/libs (takes ~20 s; only run it in a scratch copy, never in /repo), `GOFLAGS=-mod=mod GOPROXY=off go build -o bin/ferret .` builds the compiler; `bin/ferret -o prog file.fer && ./prog` compiles and runs natively (flags before the file; always put spaces around binary operators; `import "std/io";` and `io::Println(x)` to print); `bin/ferret -t file.fer` type-checks only (exit status 1 on errors); `bin/ferret -target wasm -o p.wasm file.fer` for wasm. Look at {wt}/smoke_test/*.fer for language syntax. The machine is shared and slow; builds can take a few minutes. Run demo.sh against BOTH an unmodified copy (must exit 0) and your modified tree (must exit 1) and report the outputs.
 
